@@ -123,6 +123,7 @@ PROPS = {
         "title": "Replication flow control and well-formed append/heartbeat messages",
         "modules": ["top", "prelude", "pb", "inflights", "progress", "quorum", "tracker", "log_unstable", "storage_trait", "raft_log", "raft"],
         "body": {"P": ["inflights", "progress"], "S": ["inflights", "progress", "raft"]},
+        "cone": ["log_unstable", "raft_log"],
         "modes": ["P", "S"],
         "claim": "PARTIAL (every per-call clause is decided; 'toward each follower over time' is carried by the representation invariants count <= cap and by the contracts of add/free_to, not by a history proof)",
         "decided": [
